@@ -74,7 +74,8 @@ class Worker:
         if self.cfg:
             cmd += ["--cfg", self.cfg]
         self.err = open(self.errpath, "w")
-        self.proc = subprocess.Popen(cmd, stdout=subprocess.PIPE, stderr=self.err, text=True, bufsize=1)
+        # errors="replace": a run with undefined behaviour may print bytes that are not UTF-8
+        self.proc = subprocess.Popen(cmd, stdout=subprocess.PIPE, stderr=self.err, text=True, encoding="utf-8", errors="replace", bufsize=1)
         return True
 
 
@@ -125,7 +126,7 @@ def run_batch(exe, base_seed, nruns, time_limit, cfg="", nworkers=None, extra=No
                 sel.register(wk.proc.stdout, selectors.EVENT_READ, wk)
                 continue
             if rc != 0 or wk.cur_seed is not None:
-                err = open(wk.errpath).read()[-20000:]
+                err = open(wk.errpath, errors="replace").read()[-20000:]
                 if wk.cur_seed is not None:
                     cls, det = classify_crash(rc, err)
                     crashes.append({"seed": wk.cur_seed, "verdict": cls, "detail": det, "rc": rc, "stderr": err[-6000:], "cfg": getattr(wk, "cur_cfg", "")})
@@ -163,7 +164,7 @@ def run_single(exe, seed, cfg=None, choices=None, default_choices=False, want_ch
     if want_choices: cmd += ["--emit-choices"]
     if want_trace: cmd += ["--trace"]
     try:
-        p = subprocess.run(cmd, stdout=subprocess.PIPE, stderr=subprocess.PIPE, text=True, timeout=timeout)
+        p = subprocess.run(cmd, stdout=subprocess.PIPE, stderr=subprocess.PIPE, text=True, encoding="utf-8", errors="replace", timeout=timeout)
         rc, out, err = p.returncode, p.stdout, p.stderr
     except subprocess.TimeoutExpired as e:
         rc, out, err = -9, "", "timeout"
@@ -174,7 +175,10 @@ def run_single(exe, seed, cfg=None, choices=None, default_choices=False, want_ch
         if line.startswith("CFG ") and line.count(" ") >= 2:
             seen_cfg = line.split(" ", 2)[2].strip()
         if line.startswith("RESULT "):
-            r = json.loads(line[7:])
+            try:
+                r = json.loads(line[7:])
+            except Exception:
+                return {"seed": seed, "verdict": "harness-output-garbled", "detail": line[:200], "cfg": seen_cfg, "hash": "garbled", "stats": {}, "probes": {}, "ubsan": [], "sig": "", "stderr": err[-4000:], "choices": choices}
             r["stderr"] = err[-4000:]
             return r
     cls, det = classify_crash(rc, err)
